@@ -53,6 +53,13 @@ func c13Server(nsubs, nemit int) {
 		sym.Assert(len(out) == 1 && out[0].Header.Type == net.Reply, "register-acknowledged")
 		subs = append(subs, s)
 	}
+	if nsubs > 0 && sym.Bool("foreign-unregister") {
+		// the OTHER connection quotes this subscriber's signal and user id in an unregisterEvent: whatever
+		// it is answered, the subscription belongs to the connection that made it and stays
+		s := subs[sym.Choose("whose", nsubs)]
+		msg := zzFrame(net.Call, 9, 1, 1, 41, zzRegisterPayload(1, s.signal, s.user))
+		h.UnregisterEvent(&msg, chans[1-s.conn])
+	}
 	if nsubs > 0 && sym.Bool("unregister-one") {
 		k := sym.Choose("which", nsubs)
 		s := subs[k]
